@@ -62,7 +62,11 @@ if [ "$ID" = "C19" ]; then
   fi
   rm -rf "$IDIR" "$IDIR.log" "$IDIR.race.log"
 fi
-VERIF_RACE_BIN="$RACEBIN" "$BIN" check "$ID" --tier "$TIER"
+# if the library itself uses synchronisation, an unsynchronised-looking access
+# pair may be ordered: the conflict monitor then only notes, the race pass decides
+USESSYNC=0
+if ls "$REPO"/*.go 2>/dev/null | grep -v _test.go | xargs grep -l '"sync\(/atomic\)\?"' >/dev/null 2>&1; then USESSYNC=1; fi
+VERIF_C19_SYNC="$USESSYNC" VERIF_RACE_BIN="$RACEBIN" "$BIN" check "$ID" --tier "$TIER"
 rc=$?
 rm -f "$BIN" "$RACEBIN" "$V/.build/alt.$$.mod" "$V/.build/alt.$$.sum"
 exit $rc
